@@ -233,7 +233,7 @@ async def observe(db, model_hint=None, limits=(0, 1, 2, 5)):
     st = db.state
     out['state'] = {'height': st.height, 'tip': st.tip, 'tx_count': st.tx_count,
                     'utxo_count': st.utxo_count, 'chain_size': st.chain_size}
-    scripts = W.SCRIPTS + W.ABSENT_SCRIPTS
+    scripts = W.SCRIPTS + W.ABSENT_SCRIPTS + W.EXTRA_SCRIPTS
     out['utxos'] = {}
     out['history'] = {}
     out['limited'] = {}
